@@ -7,6 +7,7 @@ leg 1: TLC proves on the lattice that the PROCEDURE the code runs (vertex test +
 leg 2: every table row is replayed into confidence_region_check_dominates: code TRUE => relaxed definition TRUE
        (soundness, all cones incl. 3-facet); strict definition TRUE => code TRUE (completeness, K = 2);
        on robust rows with exact data the code must equal the procedure.  3-D orthant rows: soundness.
+leg 2b: bundled theta cones (irrational normals) x overlapping lattice boxes against the bound evaluator (soundness, completeness).
 leg 3: (last sentence of the property) VOGP / EpsilonPAL runs on scripted lattice posteriors, a quarter of the designs exact twins of
        others (ties, mutual domination): the pessimistic Pareto set handed to discarding() is recorded and validated by
        VOTraceAlgo clause `pess` = VOAlgo!VogpPess over the pairwise relation (geometric where robust, the code's own pairwise
@@ -55,6 +56,59 @@ def _invert_leg(seed):
     return n, bad
 
 
+def _theta_leg(args):
+    """Bundled two-facet cones with IRRATIONAL facet normals (ConeTheta2DOrder at acute and obtuse angles): on the integer cones of the table
+    many W-images coincide, which hides the orientation of the image edges.  Pairs of lattice boxes that overlap or nest (the first one often
+    degenerate in a coordinate), answers from the evaluator bound to TLC's table (exact rational arithmetic on the float entries of W):
+    strict definition TRUE (margin one unit per facet, far above rounding) => code TRUE; code TRUE => relaxed definition TRUE."""
+    seed, count = args
+    import random
+    import warnings
+    warnings.filterwarnings("ignore")
+    import numpy as np
+    from vopy.confidence_region import RectangularConfidenceRegion, confidence_region_check_dominates
+    from vopy.order import ConeTheta2DOrder
+    from . import refeval as R
+    rnd = random.Random(seed)
+    bad, n = [], 0
+    orders = {deg: ConeTheta2DOrder(cone_degree=deg) for deg in (30, 45, 60, 75, 120, 135)}
+    for _ in range(count):
+        deg = rnd.choice(list(orders))
+        o = orders[deg]
+        W = [[float(x) for x in r] for r in o.ordering_cone.W]
+        lo2 = [rnd.randint(0, 4) for _ in range(2)]
+        hi2 = [l + rnd.randint(1, 8) for l in lo2]
+        lo1 = [rnd.randint(lo2[k] - 1, hi2[k] + 1) for k in range(2)]
+        hi1 = [lo1[k] + rnd.choice([0, 0, 1, 3]) for k in range(2)]
+        b1, b2 = (tuple(lo1), tuple(hi1)), (tuple(lo2), tuple(hi2))
+        relaxed, strict = R.pdom_box(W, b1, b2, -1), R.pdom_box(W, b1, b2, 1)
+        k = rnd.choice([1.0, 0.25, 0.01])
+        try:
+            got = bool(confidence_region_check_dominates(o, RectangularConfidenceRegion(2, np.array(b1[0], float) * k, np.array(b1[1], float) * k),
+                                                         RectangularConfidenceRegion(2, np.array(b2[0], float) * k, np.array(b2[1], float) * k)))
+        except Exception as e:
+            bad.append({"kind": "theta-exception", "degree": deg, "r1": b1, "r2": b2, "scale": k, "error": repr(e)[:200]})
+            continue
+        n += 1
+        if strict and not got:
+            bad.append({"kind": "theta-incomplete", "degree": deg, "r1": b1, "r2": b2, "scale": k, "got": got, "expected": True})
+        elif got and not relaxed:
+            bad.append({"kind": "theta-unsound", "degree": deg, "r1": b1, "r2": b2, "scale": k, "got": got, "expected": False})
+    return n, bad
+
+
+def _theta_one(case):
+    import numpy as np
+    from vopy.confidence_region import RectangularConfidenceRegion, confidence_region_check_dominates
+    from vopy.order import ConeTheta2DOrder
+    k = case["scale"]
+    got = bool(confidence_region_check_dominates(ConeTheta2DOrder(cone_degree=case["degree"]),
+                                                 RectangularConfidenceRegion(2, np.array(case["r1"][0], float) * k, np.array(case["r1"][1], float) * k),
+                                                 RectangularConfidenceRegion(2, np.array(case["r2"][0], float) * k, np.array(case["r2"][1], float) * k)))
+    print(" check_dominates now answers", got, "expected", case["expected"])
+    return got == case["expected"]
+
+
 def run(ctx):
     import vopy.confidence_region  # noqa: F401
     thorough = ctx.tier == "thorough"
@@ -74,6 +128,14 @@ def run(ctx):
     for b in badi:
         ctx.violation("%s|dim=%d" % (b["kind"], len(b["pt"])), b, "is_pt_in_extended_polytope: %s" % str(b)[:400])
     ctx.evaluations += ni
+    from .pool import pmap
+    per = 4000 if thorough else 1200
+    outt = pmap(_theta_leg, [(ctx.seed * 100 + i, per) for i in range(8)])
+    for nt, badt in outt:
+        ctx.evaluations += nt
+        for b in badt:
+            ctx.violation("%s|degree=%d" % (b["kind"], b["degree"]), b, "check_dominates on a bundled theta cone: %s" % str(b)[:400])
+    ctx.extra["theta_cone_pairs"] = sum(nt for nt, _ in outt)
     AC.run_traces(ctx, "pess", "C11")
     ctx.traces += len(rows) + len(rows3)
     ctx.evaluations += calls + c3
@@ -96,6 +158,8 @@ def replay(body):
     case = body["case"]
     if "cfg" in case:
         return AC.replay_case(body, "C11")
+    if case.get("kind", "").startswith("theta"):
+        return True if case["kind"] == "theta-exception" else _theta_one(case)
     if case.get("kind", "").startswith("extpoly"):
         return not _invert_leg(0)[1]
     row = dict(case["row"], allscales=True)
